@@ -32,7 +32,7 @@ def build_sources(case, rnd, nvariants, plain_first=True):
     return out
 
 
-def replay(cases, rnd, nvariants=2, chunk=150, want_extra=None, main="a", jobs=None, units=None):
+def replay(cases, rnd, nvariants=2, chunk=150, want_extra=None, main="a", jobs=None, units=None, prefix=True):
     """cases: [{files, data, tree, steps?, scripts?}] (spec JSON).  Returns a list of records
     {case, variant, sources, problems, panic, warn, bkeys} — one per (case, variant).
     `units` (optional): pre-built [{ci, v, srcs}] instead of fresh concretisations."""
@@ -41,13 +41,15 @@ def replay(cases, rnd, nvariants=2, chunk=150, want_extra=None, main="a", jobs=N
         for ci, case in enumerate(cases):
             for v, srcs in build_sources(case, rnd, nvariants):
                 units.append({"ci": ci, "v": v, "srcs": srcs})
+    if not prefix:
+        chunk = 1          # absolute references need the group root: one group per unit, no path prefix
     chunks = [units[i:i + chunk] for i in range(0, len(units), chunk)]
     vcases = []
     for k, ch in enumerate(chunks):
         files = []
         scripts = []
         for ui, u in enumerate(ch):
-            pre = "u%d/" % ui
+            pre = ("u%d/" % ui) if prefix else ""
             u["pre"] = pre
             for p, t in u["srcs"]:
                 files.append([pre + p, t])
@@ -85,7 +87,7 @@ def replay(cases, rnd, nvariants=2, chunk=150, want_extra=None, main="a", jobs=N
         jcases = []
         for ui, u in enumerate(ch):
             c = cases[u["ci"]]
-            jcases.append({"id": len(records), "path": u["pre"] + main, "data": c["data"], "tree": c.get("tree"),
+            jcases.append({"id": len(records), "path": u["pre"] + c.get("main", main), "data": c["data"], "tree": c.get("tree"),
                            "steps": c.get("steps", []), "tmpl": c.get("tmpl", ""), "paths": c.get("paths", False), "mergeText": c.get("mergeText", False),
                            "pre": u["pre"]})
             ws = []
